@@ -2,6 +2,7 @@ SPECIFICATION DSpec
 CONSTANTS
   W = 4
   Fixed = TRUE
+  FixedPred = TRUE
   MaxN = 4
   MaxU = 9
   AllL = TRUE
